@@ -82,17 +82,17 @@ Proof.
   intros s []. unfold wl_hold, rl_hold in *.
   constructor; unfold lx_of, bw_of_state, bcount, wl_hold, rl_hold.
   - destruct (lx s); cbn in *;
-      destruct (wl s) as [| | |[]|[]| | | |?| | |]; cbn in *; try discriminate;
+      destruct (wl s) as [| | |[]|[]| | |?| | |]; cbn in *; try discriminate;
       destruct (rl s) as [|?| |[]|? ?|? ?| | |?|]; cbn in *; congruence.
   - intros H1 H2. destruct (lx s); cbn in *;
-      destruct (wl s) as [| | |[]|[]| | | |?| | |]; cbn in *; try discriminate;
+      destruct (wl s) as [| | |[]|[]| | |?| | |]; cbn in *; try discriminate;
       destruct (rl s) as [|?| |[]|? ?|? ?| | |?|]; cbn in *; congruence.
   - destruct (bw s); cbn in *;
-      destruct (wl s) as [| | |?|?| | | |[]| | |]; cbn in *; try discriminate;
+      destruct (wl s) as [| | |?|?| | |[]| | |]; cbn in *; try discriminate;
       destruct (rl s) as [|?| |?|? ?|? ?| | |[]|]; cbn in *; try discriminate;
       destruct (uc s) as [|[]|]; cbn in *; congruence.
   - destruct (bw s); cbn in *;
-      destruct (wl s) as [| | |?|?| | | |[]| | |]; cbn in *; try discriminate;
+      destruct (wl s) as [| | |?|?| | |[]| | |]; cbn in *; try discriminate;
       destruct (rl s) as [|?| |?|? ?|? ?| | |[]|]; cbn in *; try discriminate;
       destruct (uc s) as [|[]|]; cbn in *; try discriminate; lia.
 Qed.
